@@ -305,6 +305,13 @@ class PurityScenario(Scenario):
         add('array', 'GV', recipe={'kind': 'list', 'values': [1e-5, 0.02]})
         add('array', 'G2', recipe={'kind': 'uniform', 'shape': 'SQ', 'lo': 0.01, 'hi': 0.05, 'seed': sd()})
         add('array', 'G3', recipe={'kind': 'uniform', 'shape': 'G3', 'lo': 1e-6, 'hi': 0.02, 'seed': sd()})
+        # arguments a caller keeps in arrays of its own and passes to call after call
+        add('array', 'SHP', recipe={'kind': 'list', 'values': [rng.randint(4, 7), rng.randint(4, 7)], 'dtype': 'int64'})
+        add('array', 'PXA', recipe={'kind': 'list', 'values': [ph['du'], ph['du']]})
+        add('array', 'SHIFTV', recipe={'kind': 'list', 'values': [rng.uniform(-1.5, 1.5), rng.uniform(-1.5, 1.5)]})
+        add('array', 'OFFV', recipe={'kind': 'list', 'values': [rng.randint(-2, 2), rng.randint(-2, 2)], 'dtype': 'int64'})
+        add('array', 'ALPHA', recipe={'kind': 'list', 'values': [1.0 / (world['shapes']['S0'][0] + 2), 1.0 / (world['shapes']['S0'][1] + 1)]})
+        add('array', 'TILTV', recipe={'kind': 'list', 'values': [1e-6, -2e-6]})
         add('Pupil', 'P0', k={'amplitude': '@A', 'opd': '@O', 'mask': '@M', 'pixelscale': ph['dx'], 'focal_length': ph['f']})
         add('Pupil', 'P1', k={'amplitude': '@A', 'opd': '@O', 'mask': '@MS', 'pixelscale': ph['dx'], 'focal_length': ph['f']})
         add('Pupil', 'P2', k={'amplitude': '@A', 'opd': '@O', 'pixelscale': ph['dx'], 'focal_length': ph['f']})
@@ -371,6 +378,13 @@ class PurityScenario(Scenario):
             k = {'pixelscale': ph['du'], 'shape': n, 'oversample': os_}
             if rng.random() < 0.3:
                 k['prop_shape'] = [max(1, n[0] - rng.randint(0, 2)), max(1, n[1] - rng.randint(0, 2))]
+            if rng.random() < 0.3:
+                # arguments handed over in the caller's own arrays (twice: the arrays must come back unchanged and give the same answer)
+                ka = {'pixelscale': '@PXA', 'shape': '@SHP', 'oversample': os_}
+                first = E('propagate_dft', ['@' + src], dict(ka))
+                out.append(first)
+                out.append(E('propagate_dft', ['@' + src], dict(ka), t={'dup_of': first['id']}))
+                out.append(E('propagate_fft', ['@' + w1], {'pixelscale': '@PXA', 'shape': '@SHP', 'oversample': os_}))
             wi = nid('w')
             out.append(E('propagate_dft', ['@' + src], k, id=wi))
             out.append(E('attr', ['@' + wi, rng.choice(['field', 'intensity'])]))
@@ -564,6 +578,80 @@ class PurityScenario(Scenario):
                    E('Plane.multiply', ['@IMA', '@W0'])]
             return rng.sample(out, rng.randint(3, 6))
 
+        def attr_path():
+            """The same public plane state reached by construction and by attribute updates (C10.fresh compares the used, updated plane
+            with a clone built from its public state in a pristine process)."""
+            out = []
+            S = world['shapes']['S0']
+            a1, a2, o2 = nid('a'), nid('a'), nid('o')
+            disk = lambda dr, dc, rad: {'kind': 'disk', 'shape': 'S0', 'radius': rad, 'dr': dr, 'dc': dc}
+            out.append({'c': c, 'fn': 'array', 'id': a1, 'recipe': {'kind': 'mul', 'x': {'kind': 'uniform', 'shape': 'S0', 'lo': 0.4, 'hi': 1.0, 'seed': sd()},
+                                                                   'y': disk(-1, -1, min(S) / 2.0 - 1.2)}})
+            out.append({'c': c, 'fn': 'array', 'id': a2, 'recipe': {'kind': 'mul', 'x': {'kind': 'uniform', 'shape': 'S0', 'lo': 0.4, 'hi': 1.0, 'seed': sd()},
+                                                                   'y': rng.choice([disk(1, 1, min(S) / 2.0 - 0.8), {'kind': 'ones', 'shape': 'S0'},
+                                                                                    {'kind': 'rect', 'shape': 'S0', 'half': [1, max(1, S[1] // 2)], 'dr': 1, 'dc': 0}])}})
+            out.append({'c': c, 'fn': 'array', 'id': o2, 'recipe': {'kind': 'normal', 'shape': 'S0', 'sigma': 3e-8, 'seed': sd()}})
+            p = nid('p')
+            kw = {'amplitude': '@' + a1, 'pixelscale': ph['dx'], 'focal_length': ph['f']}
+            if rng.random() < 0.5:
+                kw['opd'] = '@O'
+            out.append(E(rng.choice(['Pupil', 'Pupil', 'Plane']), None, kw if True else None, id=p))
+            if out[-1]['fn'] == 'Plane':
+                out[-1]['k'] = {k_: v_ for k_, v_ in kw.items() if k_ != 'focal_length'}
+            out.append(E('Plane.multiply', ['@' + p, '@W0']))
+            ups = [('amplitude', '@' + a2), ('opd', '@' + o2), ('amplitude', rng.choice([1.0, 0.5])), ('opd', 0.0)]
+            for name, val in rng.sample(ups, rng.randint(1, 3)):
+                out.append(E('setattr', ['@' + p, name, val], inplace=['@' + p]))
+                for fn_, a_ in (('Plane.multiply', ['@' + p, '@W0']), ('attr', ['@' + p, 'ptt_vector']), ('Plane.fit_tilt', ['@' + p]),
+                                ('Plane.rescale', ['@' + p, 1.5]), ('attr', ['@' + p, 'shape'])):
+                    if rng.random() < 0.6:
+                        out.append(E(fn_, a_, t={'fresh': True}))
+            return out
+
+        def refusals():
+            """Calls that are refused (or may be, depending on the implementation): whatever the outcome, every shared object must be
+            byte-identical afterwards, the outcome must be the same solo / interleaved / in a pristine process, and later calls unaffected."""
+            out = [E('propagate_dft', ['@W0'], {'pixelscale': ph['du'], 'shape': [4, 4], 'oversample': 1}),
+                   E('propagate_fft', ['@W0'], {'pixelscale': ph['du'], 'oversample': 1}),
+                   E('Plane.multiply', ['@IM', '@' + rng.choice(['W0', 'W0'])]),
+                   E('dft2', ['@CX', 0.1], {'shape': [4, 5], 'out': '@A'}),
+                   E('dft2', ['@CX', [0.1, 0.2, 0.3]], {'shape': [4, 5]}),
+                   E('rebin', ['@IMG', 7]),
+                   E('zernike', ['@MB', 0]),
+                   E('zernike_fit', ['@O', '@CUBE', [1, 2, 3]]),
+                   E('Plane.resample', ['@PSC', ph['dx']]),
+                   E('Plane.fit_tilt', ['@PDEF']),
+                   E('collect_charge', ['@CUBE', [450.0, 550.0], 0.8]),
+                   E('collect_charge', ['@CUBE', [450.0, 550.0, 650.0], '@SP1'], {'waveunit': 'bogus'}),
+                   E('adc', ['@ISQ', '@CUBE']),
+                   E('adc', ['@ISQ', 0.02], {'dtype': 'not-a-dtype'}),
+                   E('shot_noise', ['@O'], {'method': rng.choice(['poisson', 'gaussian']), 'seed': sd()}),
+                   E('shot_noise', ['@ISQ'], {'method': 'binomial', 'seed': sd()}),
+                   E('read_noise', ['@IMG', -1.0], {'seed': sd()}),
+                   E('Spectrum.sample', ['@SP1', [500.0, 510.0]], {'waveunit': 'furlong'}),
+                   E('Spectrum.sample', ['@SP1', [500.0, 510.0]], {'method': 'bogus'}),
+                   E('Spectrum.bin', ['@SP1', [450.0, 500.0, 550.0]], {'interp_method': 'bogus'}),
+                   E('Spectrum.bin', ['@SP2', [450.0]], {'waveunit': 'nm'}),
+                   E('Spectrum.integrate', ['@SP1'], {'method': 'bogus'}),
+                   E('s*', ['@SP1', [1.0, 2.0]]),
+                   E('s+', ['@SP1', 'text']),
+                   E('Spectrum', [[3.0, 2.0, 1.0], '@QEV']),
+                   E('Spectrum', ['@QEV', [1.0, 2.0]]),
+                   E('Blackbody', [[400.0, 500.0], -5.0]),
+                   E('Pupil', None, {'amplitude': '@A', 'amp': '@A'}),
+                   E('Wavefront', [ph['wl']], {'tilt': [1e-6]}),
+                   E('Wavefront', [ph['wl']], {'ptype': 'tilt'}),
+                   E('pad', ['@CUBE', [3]]),
+                   E('window', ['@IMG'], {'shape': [3, 3], 'window': [0, 2, 0]}),
+                   E('power_spectrum', ['@CUBE'], {'pixelscale': ph['dx'], 'rms': 5e-8, 'half_power_freq': 8.0, 'exp': 3.0, 'seed': sd()}),
+                   E('circle', [[9], 3.0]),
+                   E('path_transmission', [['@SP1', 'text']])]
+            picks = rng.sample(out, rng.randint(3, 7))
+            # ... and the shared objects answer as before
+            picks.append(E('Plane.multiply', ['@P0', '@W0']))
+            picks.append(E('Spectrum.integrate', ['@SP1']))
+            return picks
+
         def used_vs_fresh():
             """A plane that has been used, then had its arrays updated in place by their owner, answers like a fresh plane in the same state."""
             out = []
@@ -632,6 +720,12 @@ class PurityScenario(Scenario):
                     out.append(E('dft2', ['@CX', alpha], k))
             if rng.random() < 0.5:
                 out.append(E('idft2', ['@CX', alpha], {'shape': shp, 'unitary': True}))
+            if rng.random() < 0.4:
+                ka = {'shape': '@SHP', 'shift': '@SHIFTV', 'offset': '@OFFV', 'unitary': True}
+                first = E('dft2', ['@CX', '@ALPHA'], dict(ka))
+                out.append(first)
+                out.append(E('idft2', ['@CX', '@ALPHA'], dict(ka)))
+                out.append(E('dft2', ['@CX', '@ALPHA'], dict(ka), t={'dup_of': first['id']}))
             return out
 
         def zern():
@@ -648,6 +742,12 @@ class PurityScenario(Scenario):
                    E('subarray', ['@A', [2, 2]], {'shift': [rng.randint(-1, 1), rng.randint(-1, 1)]}),
                    E('rebin', ['@ISQ', 2]),
                    E('rescale', ['@A', rng.choice([0.5, 1.5, 2.0])]),
+                   E('rescale', ['@' + rng.choice(['A', 'CX', 'O']), rng.choice([1.0, 1.0, 2.0, 0.5])],
+                     {'mask': '@' + rng.choice(['M', 'MB']), 'unitary': rng.random() < 0.5}),      # identity scale, caller-supplied mask
+                   E('pad', ['@A', list(S0)]),
+                   E('rebin', ['@ISQ', 1]),
+                   E('subarray', ['@A', list(S0)]),
+                   E('window', ['@IMG']),
                    E('normalize_power', ['@A'], {'power': rng.choice([1, 2.5])}),
                    E('centroid', ['@IMG']),
                    E('boundary', ['@M']),
@@ -668,7 +768,8 @@ class PurityScenario(Scenario):
                    E('pixel', ['@ISQ'], {'oversample': rng.choice([1, 2])}),
                    E('pixel', ['@IMG'], {'oversample': 1}),
                    E('pixelate', ['@ISQ'], {'oversample': 2}),
-                   E('jitter', ['@IMG', rng.choice([0.5, 1.5])], {'oversample': 1}),
+                   E('jitter', ['@IMG', rng.choice([0.5, 1.5, 0.0])], {'oversample': 1}),
+                   E('pixelate', ['@IMG'], {'oversample': 1}),
                    E('smear', ['@IMG', rng.choice([1.0, 3.0])], {'angle': rng.choice([0, 30, 90])}),
                    E('charge_diffusion', ['@IMG', 0.8], {'oversample': 1}),
                    E('adc', ['@ISQ', rng.choice([0.02, '@GV', '@G2', '@G3'])],
@@ -677,6 +778,8 @@ class PurityScenario(Scenario):
                    E('shot_noise', ['@ISQ'], {'method': rng.choice(['poisson', 'gaussian']), 'seed': sd()}),
                    E('read_noise', ['@IMG', 10.0], {'seed': sd()}),
                    E('dark_current', [rng.choice([5.5, 100.0])], {'shape': [4, 5], 'fpn_factor': rng.choice([0, 0.2]), 'seed': sd()}),
+                   E('dark_current', [12.5], {'shape': '@SHP', 'fpn_factor': 0.2, 'seed': sd()}),
+                   E('Wavefront', [ph['wl']], {'tilt': '@TILTV', 'pixelscale': '@PXA'}),
                    E('rule07_dark_current', [100.0, 5e-6, 18e-6], {'shape': [3, 4], 'fpn_factor': 0.3, 'seed': sd()}),
                    E('power_spectrum', ['@MB'], {'pixelscale': ph['dx'], 'rms': 5e-8, 'half_power_freq': 8.0, 'exp': 3.0, 'seed': sd()})]
             picks = rng.sample(out, rng.randint(3, 7))
@@ -714,7 +817,7 @@ class PurityScenario(Scenario):
             return picks
 
         table = [(optics, 3), (fft, 2), (fit, 2), (fit_inplace, 1), (path, 1.5), (refused_fit, 0.7), (used_vs_fresh, 1.2), (dft, 2), (zern, 1), (util, 1.5),
-                 (detector, 3), (spectra, 3), (dispersive, 1.2), (derived_inplace, 1.5), (misc, 1.2)]
+                 (detector, 3), (spectra, 3), (dispersive, 1.2), (derived_inplace, 1.5), (misc, 1.2), (refusals, 1.2), (attr_path, 1.2)]
         return table
 
     # ---------------------------------------------------------------- generation
@@ -848,6 +951,14 @@ class PurityScenario(Scenario):
                 v = self._variant(rng, ev, len(out))
                 if v is not None:
                     out.append(v)
+            if self._fresh_ok(ev) and ev.get('id') and not ev.get('t', {}).get('dup_of') and rng.random() < 0.06:
+                # the caller edits, in place, the array it was just handed (psf /= psf.max()) and asks again -- also on its private objects
+                out.append({'env': 'perturb', 'c': c, 'target': '@' + ev['id'], 'seed': rng.randrange(10 ** 6), 'unshared': True})
+                d = copy.deepcopy(ev)
+                d.setdefault('t', {})['dup_of'] = ev['id']
+                d['t'].pop('fresh', None)
+                d['id'] = ev['id'] + 'r%d' % len(out)
+                out.append(d)
             if self._dup_ok(ev):
                 done[c].append(ev)
             if done[c] and rng.random() < 0.08:
@@ -973,6 +1084,11 @@ class PurityScenario(Scenario):
     def _run_with_probes(self, it, run, seen_shapes):
         """Run the events; between steps watch the cache counters (probes only)."""
         L = it.L
+        if it._coords_wrapped is None:
+            # the tree under test has no coordinate cache to size or evict (a refactor may build its coordinates differently):
+            # the cache knob is a no-op there and its must-hit probe is vacuously met
+            it.probe('cache_seam_absent')
+            it.probe('cache_eviction')
         last_rng_fault = [False]
         orig_do_env = it.do_env
         orig_step = it.step
